@@ -466,6 +466,9 @@ func wrapOf(v *core.Expr) string {
 		case cur.Op == "conv", cur.Op == "call" && (cur.Name == "slices.Clone" || cur.Name == "bytes.Clone"):
 			cur = cur.Args[0]
 			continue
+		case cur.Op == "call" && cur.Name == "append" && len(cur.Args) == 2 && isNilExpr(cur.Args[0]):
+			cur = cur.Args[1] // append([]byte(nil), x...) is a copy
+			continue
 		case cur.Op == "call":
 			w = "<" + lastDot(cur.Name) + ">"
 		}
@@ -558,3 +561,10 @@ func clientHelloGrammar(p *core.Prog, r *core.Run, rule string) {
 }
 
 var _ = fmt.Sprintf
+
+func isNilExpr(e *core.Expr) bool {
+	for e.Op == "conv" {
+		e = e.Args[0]
+	}
+	return e.Op == "const" && (e.Name == "nil" || e.Name == "zero")
+}
